@@ -12,7 +12,15 @@ Vocabulary (Lemmas/Partition.lean):
 `subPart P s e st` nodes `c s, c (s+st), …` below `e`, limits `bdry s`, `bdry e`;
 `sumTo f n`       `f 0 + … + f (n-1)`.
 All statements are for every number of nodes `n`, every coordinate vector and all rationals
-(hence every finite float); nothing is bounded.
+(hence every finite float); nothing is bounded.  Tolerances of the code (`np.allclose` in
+`is_uniform`, the relative boundary test `1e-5` of `nodes_on_bdry`, `np.isclose` / `1e-5` in the
+parameter completion) are universally quantified parameters with the stated side conditions, which
+the values used by the code and by the driver satisfy.
+
+Sections: (1) 1-d tiling, (2) uniform / non-uniform constructors, (3) point location,
+(4) 1-d indexing, (5) n-d: the two code paths (grid / set) stay aligned, (6) n-d model structure
+(statements about the aligned view `Part := List Part1`; what they say about /repo rests on (5) and
+on the correspondence run), (7) sensitivity: the OLD model variants of repaired defects.
 -/
 import OdlModel.Lemmas.Partition
 import OdlModel.Gen.UniformGrid
@@ -59,13 +67,6 @@ theorem C14.cell_sizes_sum (P : Part1) (hn : 1 ≤ P.n) :
     sumTo P.cellSize P.n = P.hi - P.lo :=
   cell_sizes_sum_all P hn
 
-/-- Sensitivity (the defect C14-F2, repaired in /repo): with the OLD `cell_sizes_vecs`
-(`[0.0]` on a single-node axis) a valid one-node partition of `[0, 1]` has cell sizes that do
-not sum to the extent. -/
-theorem C14.cell_sizes_old_sum_fails_len1 :
-    ∃ P : Part1, Valid P ∧ P.n = 1 ∧ sumTo P.cellSizeOld P.n ≠ P.hi - P.lo :=
-  OdlModel.Partition.cell_sizes_old_sum_fails_len1
-
 example : sumTo (Part1.ofList [0, 1, 3] (-1/2) 4).cellSize 3 = 4 - (-1/2) :=
   C14.cell_sizes_sum (Part1.ofList [0, 1, 3] (-1/2) 4) (by decide)
 
@@ -111,27 +112,64 @@ theorem C14.uniform_node_placement (lo hi : Rat) (n : Nat) (hn : 2 ≤ n) (bl br
 
 /-- Uniform partitions: `cell_sides * (n - (bl + br)/2) = max_pt - min_pt` for all four
 nodes-on-boundary combinations and every `n ≥ 2`; the partition is a valid state, and the
-flags detected by `nodes_on_bdry_byaxis` are the requested ones. -/
-theorem C14.uniform_side_times_count (lo hi : Rat) (hlh : lo < hi) (n : Nat) (hn : 2 ≤ n)
-    (bl br : Bool) :
+flags detected by `nodes_on_bdry_byaxis` are the requested ones.  Holds for EVERY tolerance
+`t` of `np.allclose` with non-negative entries and EVERY relative boundary tolerance
+`rtol < 1/2` — in particular for the values the code uses (`Tol.numpy`, `1e-5`), see the
+corollary below. -/
+theorem C14.uniform_side_times_count (t : Tol) (ht1 : 0 ≤ t.atol) (ht2 : 0 ≤ t.rtol) (rtol : Rat)
+    (hr : rtol < 1 / 2) (lo hi : Rat) (hlh : lo < hi) (n : Nat) (hn : 2 ≤ n) (bl br : Bool) :
     Valid (uniformAxis lo hi n bl br) ∧
-    ∃ h, (uniformAxis lo hi n bl br).cellSide Tol.exact = some h ∧
+    ∃ h, (uniformAxis lo hi n bl br).cellSide t = some h ∧
       h * ((n : Rat) - halfCount bl br) = hi - lo ∧
-      (uniformAxis lo hi n bl br).nodesOnBdry Tol.exact = (bl, br) := by
-  refine ⟨uniform_valid lo hi hlh n (by omega) bl br, _, uniform_cellSide lo hi hlh n hn bl br, ?_,
-    uniform_nodesOnBdry lo hi hlh n hn bl br⟩
+      (uniformAxis lo hi n bl br).nodesOnBdry rtol = (bl, br) := by
+  refine ⟨OdlModel.Partition.uniform_valid lo hi hlh n (by omega) bl br, _,
+    uniform_cellSide t ht1 ht2 lo hi hlh n hn bl br, ?_,
+    uniform_nodesOnBdry rtol hr lo hi hlh n hn bl br⟩
   have := halfCount_lt bl br n hn
   field_simp
 
-/-- One-node uniform axes are valid for every flag combination too (the node sits at `lo`,
-`hi` or the midpoint). -/
-theorem C14.uniform_valid (lo hi : Rat) (hlh : lo < hi) (n : Nat) (hn : 1 ≤ n) (bl br : Bool) :
-    Valid (uniformAxis lo hi n bl br) :=
-  OdlModel.Partition.uniform_valid lo hi hlh n hn bl br
+/-- The instance the code and the driver execute: `is_uniform` with `rtol = 1e-5` plus the coordinate
+rounding allowance `4 * 2^-52 * max |v|` (`Part1.uniTol`), boundary tolerance `1e-5`. -/
+theorem C14.uniform_side_times_count_code (lo hi : Rat) (hlh : lo < hi) (n : Nat) (hn : 2 ≤ n)
+    (bl br : Bool) :
+    ∃ h, (uniformAxis lo hi n bl br).cellSide
+        ((uniformAxis lo hi n bl br).uniTol (1 / 4503599627370496) (1 / 100000)) = some h ∧
+      h * ((n : Rat) - halfCount bl br) = hi - lo ∧
+      (uniformAxis lo hi n bl br).nodesOnBdry (1 / 100000) = (bl, br) := by
+  have hr : ∀ x : Rat, 0 ≤ rabs x := by intro x; unfold rabs; split_ifs <;> linarith
+  refine (C14.uniform_side_times_count _ ?_ (by norm_num [Part1.uniTol])
+    (1 / 100000) (by norm_num) lo hi hlh n hn bl br).2
+  simp only [Part1.uniTol]
+  split_ifs
+  · have := hr ((uniformAxis lo hi n bl br).c ((uniformAxis lo hi n bl br).n - 1)); positivity
+  · have := hr ((uniformAxis lo hi n bl br).c 0); positivity
 
-example : (uniformAxis 0 (7/4) 4 true false).cellSide Tol.exact = some (1/2) := by
-  rw [uniform_cellSide 0 (7/4) (by norm_num) 4 (by decide) true false]
-  norm_num [halfCount]
+/-- One-node uniform axes are valid for every flag combination too: the node sits at `lo` (left flag),
+`hi` (right flag only) or the midpoint.  The request "one node on BOTH ends" of a proper interval is
+unsatisfiable; the code accepts it, puts the node at `lo` and reports the flags `(True, False)`. -/
+theorem C14.uniform_valid (lo hi : Rat) (hlh : lo < hi) (n : Nat) (hn : 1 ≤ n) (bl br : Bool) :
+    Valid (uniformAxis lo hi n bl br) ∧
+    (n = 1 → (uniformAxis lo hi n bl br).c 0 =
+        (if bl then lo else if br then hi else (lo + hi) / 2)) ∧
+    (n = 1 → ∀ rtol, rtol < 1 / 2 → (uniformAxis lo hi n true true).nodesOnBdry rtol = (true, false)) := by
+  refine ⟨OdlModel.Partition.uniform_valid lo hi hlh n hn bl br, ?_, ?_⟩
+  · rintro rfl
+    cases bl <;> cases br <;> simp [uniformAxis, gminOf] <;> ring
+  · rintro rfl rtol hr
+    have h2 : ¬ (hi - lo ≤ rtol * (hi - lo)) := by intro h; nlinarith
+    have h3 : ¬ (hi - lo = 0) := by intro h; linarith
+    simp [Part1.nodesOnBdry, uniformAxis, gminOf, onBdry, h2, h3]
+
+example : (uniformAxis 64 (64 + 1 / 1024) 4 false false).cellSide
+      ((uniformAxis 64 (64 + 1 / 1024) 4 false false).uniTol (1 / 4503599627370496) (1 / 100000)) =
+      some (1 / 4096) ∧
+    (uniformAxis 64 (64 + 1 / 1024) 4 false false).nodesOnBdry (1 / 100000) = (false, false) := by
+  obtain ⟨h, h1, h2, h3⟩ := C14.uniform_side_times_count_code 64 (64 + 1 / 1024) (by norm_num) 4
+    (by decide) false false
+  refine ⟨?_, h3⟩
+  rw [h1]; congr 1
+  norm_num [halfCount] at h2
+  linarith
 
 /-- `index(p)`: for every valid non-degenerate partition and every point of the set the
 returned cell `k` contains `p` (`bdry k ≤ p < bdry (k+1)`, the last cell closed on the right),
@@ -144,7 +182,7 @@ theorem C14.index_correct (P : Part1) (hv : Valid P) (hn : Nondegenerate P) (v :
       P.indexFloat v = some ((k : Rat) + (v - P.bdry k) / (P.bdry (k + 1) - P.bdry k)) :=
   index_spec P hv (bdry_lt_succ P hv hn) v h1 h2
 
-/-- Points outside the set are rejected. -/
+/-- Points outside the set are rejected (the first test of `index`; holds by unfolding). -/
 theorem C14.index_outside (P : Part1) (v : Rat) (h : v < P.lo ∨ P.hi < v) :
     P.index v = none ∧ P.indexFloat v = none := by
   unfold Part1.index Part1.indexFloat
@@ -163,6 +201,37 @@ theorem C14.getitem_slice (P : Part1) (hv : Valid P) (s e st : Nat) (hse : s < e
    fun _ => getSlice_core P hv s e 1 hse hen (le_refl _) none rfl,
    sub_valid P hv s e st hse hen hst⟩
 
+/-- `partition[start:stop:step]` for ARBITRARY bounds — `None`, negative (counted from the end),
+beyond the ends (clamped) — and every step `≥ 1` or omitted.  With `s, e` the clamped bounds
+(`clampBound`: `None ↦ 0 / n`, `k ≥ 0 ↦ min k n`, `k < 0 ↦ max (k + n) 0`, Python's
+`slice.indices`), the result is `subPart P s e step` if `s < e` and the expression is rejected
+otherwise; `C14.getitem_slice` / `C14.getitem_cells` then describe `subPart`. -/
+theorem C14.getitem_slice_general (P : Part1) (hv : Valid P) (start stop step : Option Int)
+    (st : Nat) (hst : 1 ≤ st) (hstep : step.getD 1 = (st : Int)) :
+    (sliceIndices start stop st P.n = (clampBound P.n 0 start, clampBound P.n P.n stop)) ∧
+    (0 ≤ clampBound P.n 0 start ∧ clampBound P.n 0 start ≤ P.n) ∧
+    (0 ≤ clampBound P.n P.n stop ∧ clampBound P.n P.n stop ≤ P.n) ∧
+    P.getSlice start stop step =
+      if clampBound P.n 0 start < clampBound P.n P.n stop then
+        some (subPart P (clampBound P.n 0 start).toNat (clampBound P.n P.n stop).toNat st)
+      else none :=
+  ⟨sliceIndices_pos_spec start stop st (by omega) P.n,
+   clampBound_range P.n 0 ⟨le_refl _, by omega⟩ start,
+   clampBound_range P.n P.n ⟨by omega, le_refl _⟩ stop,
+   getSlice_general P hv start stop step st hst hstep⟩
+
+/-- `p[-3:-1]` on 5 cells is cells 2..3, `p[2:]` with step 2 keeps the hull up to `hi`. -/
+example : (⟨5, fun i => i * i, -1/2, 20⟩ : Part1).getSlice (some (-3)) (some (-1)) none =
+    some (subPart ⟨5, fun i => i * i, -1/2, 20⟩ 2 4 1) := by
+  have hv : Valid ⟨5, fun i => i * i, -1/2, 20⟩ := by
+    refine ⟨by decide, ?_, by norm_num, by norm_num⟩
+    intro i hi
+    have hi' : i + 1 < 5 := hi
+    have : i = 0 ∨ i = 1 ∨ i = 2 ∨ i = 3 := by omega
+    rcases this with rfl | rfl | rfl | rfl <;> norm_num
+  have := (C14.getitem_slice_general _ hv (some (-3)) (some (-1)) none 1 (le_refl _) rfl).2.2.2
+  simpa [clampBound] using this
+
 /-- Unit-step slices: the cells of `partition[s:e]` are exactly the cells `s … e-1` of the
 original — same number, same nodes, same boundaries (all of them, inner and outer). -/
 theorem C14.getitem_cells (P : Part1) (hv : Valid P) (s e : Nat) (hse : s < e) (hen : e ≤ P.n) :
@@ -173,14 +242,17 @@ theorem C14.getitem_cells (P : Part1) (hv : Valid P) (s e : Nat) (hse : s < e) (
   · simp [subPart]; omega
   · intro i; simp [subPart]
 
-/-- Integer indices: `partition[k]` is cell `k` (`[bdry k, bdry (k+1)]` with node `c k`), and
-`partition[k - n] = partition[k]` for `0 ≤ k < n` (negative indices count from the end). -/
+/-- Integer indices: `partition[k]` is cell `k` (`[bdry k, bdry (k+1)]` with node `c k`),
+`partition[k - n] = partition[k]` for `0 ≤ k < n` (negative indices count from the end), and every
+integer outside `-n ≤ k < n` is rejected. -/
 theorem C14.getitem_int (P : Part1) (hv : Valid P) (k : Nat) (hk : k < P.n) :
     P.getInt (k : Int) = some (subPart P k (k + 1) 1) ∧
     P.getInt ((k : Int) - P.n) = P.getInt (k : Int) ∧
     (subPart P k (k + 1) 1).n = 1 ∧ (subPart P k (k + 1) 1).c 0 = P.c k ∧
-    (subPart P k (k + 1) 1).lo = P.bdry k ∧ (subPart P k (k + 1) 1).hi = P.bdry (k + 1) := by
-  refine ⟨getInt_nat P hv k hk, getInt_neg P k hk, ?_, ?_, rfl, rfl⟩ <;> simp [subPart]
+    (subPart P k (k + 1) 1).lo = P.bdry k ∧ (subPart P k (k + 1) 1).hi = P.bdry (k + 1) ∧
+    ∀ j : Int, j < -(P.n : Int) ∨ (P.n : Int) ≤ j → P.getInt j = none := by
+  refine ⟨getInt_nat P hv k hk, getInt_neg P k hk, ?_, ?_, rfl, rfl, getInt_out_of_range P⟩ <;>
+    simp [subPart]
 
 example : ∃ Q, (⟨4, fun i => i * i, -1/2, 10⟩ : Part1).getSlice (some 1) (some 3) none = some Q ∧
     Q.n = 2 ∧ Q.bdry 0 = 1 / 2 ∧ Q.bdry 2 = 13 / 2 := by
@@ -206,7 +278,8 @@ theorem C14.index_degenerate (P : Part1) (hv : Valid P) (hn : P.n = 1) (hd : P.l
     P.index P.lo = some 0 ∧ P.indexFloat P.lo = some 0 :=
   OdlModel.Partition.index_degenerate P hv hn hd
 
-/-- `squeeze()` keeps exactly the axes with more than one node, in order, each unchanged. -/
+/-- (n-d model structure, aligned view) `squeeze()` keeps exactly the axes with more than one node,
+in order.  About /repo this says something only together with `C14.squeeze_two_paths_aligned`. -/
 theorem C14.squeeze_cells (P : Part) :
     squeeze P none = some (P.filter fun p => decide (1 < p.n)) :=
   squeeze_all P
@@ -214,25 +287,36 @@ theorem C14.squeeze_cells (P : Part) :
 /-- `nonuniform_partition(coords, nodes_on_bdry=(bl, br))` without explicit limits, any strictly
 increasing coordinate vector with `n ≥ 2`: the result is valid, has the given nodes, each
 requested side has its node on the boundary (fraction `1/2`), each other side gets the natural
-half-stride margin (fraction `1`). -/
-theorem C14.nonuniform_limits (n : Nat) (c : Nat → Rat) (hn : 2 ≤ n)
+half-stride margin (fraction `1`); for every boundary tolerance `rtol < 1/2` (the code: `1e-5`). -/
+theorem C14.nonuniform_limits (rtol : Rat) (hr : rtol < 1 / 2) (n : Nat) (c : Nat → Rat) (hn : 2 ≤ n)
     (hm : ∀ i, i + 1 < n → c i < c (i + 1)) (bl br : Bool) :
     ∃ P, nonuniformAxis n c none none bl br = some P ∧ Valid P ∧ P.n = n ∧ P.c = c ∧
       P.bdryFrac = (if bl then 1 / 2 else 1, if br then 1 / 2 else 1) ∧
-      P.nodesOnBdry Tol.exact = (bl, br) :=
-  nonuniform_default n c hn hm bl br
+      P.nodesOnBdry rtol = (bl, br) :=
+  nonuniform_default rtol hr n c hn hm bl br
 
-/-- `partition[[i0, …, ik]]` (list index on an axis) for every strictly increasing list of cell
-numbers: the nodes are the selected nodes, the limits are the left boundary of the first and the
-right boundary of the last selected cell, and the result is a valid partition. -/
-theorem C14.getitem_list (P : Part1) (hv : Valid P) (first : Nat) (rest : List Nat)
-    (hlt : ∀ k ∈ first :: rest, k < P.n) (hinc : (first :: rest).Pairwise (· < ·)) :
-    ∃ Q, P.getList ((first :: rest).map (fun (k : Nat) => (k : Int))) = some Q ∧ Valid Q ∧
+/-- `partition[[i0, …, ik]]` (list index on an axis; also a list inside a tuple index) for every list
+of integers, negative entries included: if the entries wrap (`wrapIndex`: `k ↦ k` for `0 ≤ k < n`,
+`k ↦ k + n` for `-n ≤ k < 0`, anything else raises) to a strictly increasing list of cell numbers,
+the nodes are the selected nodes, the limits are the left boundary of the first and the right
+boundary of the last selected cell, and the result is a valid partition. -/
+theorem C14.getitem_list (P : Part1) (hv : Valid P) (l : List Int) (first : Nat) (rest : List Nat)
+    (hw : l.mapM (wrapIndex P.n) = some (first :: rest))
+    (hinc : (first :: rest).Pairwise (· < ·)) :
+    ∃ Q, P.getList l = some Q ∧ Valid Q ∧
       Q.n = rest.length + 1 ∧ (∀ i, Q.c i = P.c ((first :: rest).getD i 0)) ∧
       Q.lo = P.bdry first ∧ Q.hi = P.bdry ((first :: rest).getLast (by simp) + 1) :=
-  getList_spec P hv first rest hlt hinc
+  getList_general P hv l first rest hw hinc
 
-/-- `byaxis`: for a partition whose axes are valid states,
+/-- Specification of the wrap-around of list entries. -/
+theorem C14.wrap_index_spec (n : Nat) (k : Int) (j : Nat) :
+    wrapIndex n k = some j ↔
+      (0 ≤ k ∧ k < n ∧ (j : Int) = k) ∨ (-(n : Int) ≤ k ∧ k < 0 ∧ (j : Int) = k + n) :=
+  wrapIndex_spec n k j
+
+/-- (n-d model structure, aligned view; `byaxis` is built from `getItem`, `squeeze`, `append` of the
+aligned view — the alignment of grid and set inside it is covered by the correspondence run only)
+`byaxis`: for a partition whose axes are valid states,
 * `byaxis[int or slice]` (any set `sel` of selected axes) returns exactly the selected axes, in
   their original order, each unchanged (the code indexes the other axes with `0` and squeezes
   them away);
@@ -256,7 +340,9 @@ theorem C14.fromgrid_limits (n : Nat) (c : Nat → Rat) :
     ∀ a b, fromGridAxis n c (some a) (some b) = Part1.mk? ⟨n, c, a, b⟩ :=
   ⟨fromGrid_default n c, fromGrid_explicit n c⟩
 
-/-- n-d indexing `partition[i0, i1, …]` reduces to the 1-d theorems, for every number of axes:
+/-- (n-d model structure, aligned view) n-d indexing `partition[i0, i1, …]` reduces to the 1-d
+1-d statements, for every number of axes (the first item holds by unfolding after a no-op
+normalisation):
 * with one entry per axis (no ellipsis) every axis is indexed independently with its own entry
   (`getAxis`: `C14.getitem_int` / `C14.getitem_slice` / `C14.getitem_full` apply per axis);
 * fewer entries than axes are filled up with `slice(None)` from the right;
@@ -275,7 +361,8 @@ theorem C14.getitem_nd (P : Part) :
   ⟨getItem_axiswise P, fun idx => normIdx_short idx P.length,
    fun pre post => normIdx_ellipsis pre post P.length⟩
 
-/-- `insert(index, p1, …, pk)` puts the axes of the inserted partitions, in order, as one block
+/-- (n-d model structure, aligned view; see `C14.insert_two_paths_aligned` for the code's two paths)
+`insert(index, p1, …, pk)` puts the axes of the inserted partitions, in order, as one block
 before axis `index` and leaves all axes (their cells) unchanged; negative `index` counts from
 `ndim`; `append` inserts at the end. -/
 theorem C14.insert_append_cells (P : Part) (parts : List Part) (i : Nat) (hi : i ≤ P.length) :
@@ -322,20 +409,70 @@ example : completeAxis Tol.numpy (1/100000) (some 0) none (some 4) (some (1/2)) 
   (C14.uniform_spec_agree Tol.numpy (1/100000) (by norm_num [Tol.numpy]) (by norm_num [Tol.numpy])
     (by norm_num) 0 (7/4) (1/2) 4 true false (by norm_num) (by norm_num [halfCount])).2.1
 
-/-- For every way of passing `nodes_on_bdry` (global bool, per-axis list, 1-d flat pair) the
-parameter-completion loop and the grid construction see the same per-side flags; together
-with `C14.uniform_spec_agree` (applied axis by axis): all consistent ways of specifying a
+/-- The code normalises `nodes_on_bdry` twice, with two differently written routines:
+`normalized_nodes_on_bdry` (normalize.py; used by the completion loop of `uniform_partition` and by
+`nonuniform_partition`) and the block at the top of `uniform_grid_fromintv` (grid.py).  For every raw
+value (bool, sequence of bools and/or pairs, any `ndim`):
+* whatever the first accepts, the second reads as the SAME per-side flags — so a direct call of
+  `uniform_partition_fromintv` and the completion loop never disagree;
+* the accepted result has one pair per axis;
+* the second routine applied to the already normalised list (what `uniform_partition` hands on) is
+  the identity.
+Together with `C14.uniform_spec_agree` (applied axis by axis): all consistent ways of specifying a
 uniform partition give the same partition. -/
-theorem C14.uniform_flags_agree (f : Flags) (ndim : Nat) : f.loopFlags ndim = f.gridFlags ndim := by
-  cases f <;> rfl
+theorem C14.flags_two_normalisations_agree (f : Flags) (ndim : Nat) (fl : List (Bool × Bool))
+    (h : f.loopFlags ndim = some fl) :
+    f.gridFlags ndim = some fl ∧ fl.length = ndim ∧
+    (Flags.ofNormalized fl).gridFlags ndim = some fl :=
+  ⟨gridFlags_of_loopFlags f ndim fl h, loopFlags_length f ndim fl h,
+   gridFlags_ofNormalized fl ndim (loopFlags_length f ndim fl h)⟩
 
-/-- Sensitivity (the defect C14-F1, repaired in /repo): with the OLD normalisation of the 1-d
+/-- the 1-d flat pair `(True, False)` and the mixed per-axis form `[True, (False, True)]` -/
+example : (Flags.seq [.b true, .b false]).loopFlags 1 = some [(true, false)] ∧
+    (Flags.seq [.b true, .pair false true]).gridFlags 2 = some [(true, true), (false, true)] :=
+  ⟨rfl, (C14.flags_two_normalisations_agree (Flags.seq [.b true, .pair false true]) 2 _ rfl).1⟩
+
+/-! ### (5) n-d: the two code paths stay aligned -/
+
+/-- `RectPartition.insert` / `append` update the grid through `RectGrid.insert` (grid.py) and the set
+through `IntervalProd.insert` (domain.py) — two separately written recursions, each advancing by the
+number of axes of ITS OWN first block — and re-assemble with `RectPartition(newset, newgrid)`.  For
+partitions whose axes are valid states the two paths cannot get out of step: the re-assembled
+result is exactly the aligned insertion (`C14.insert_append_cells`), for every index (also negative /
+out of range) and every number of inserted partitions of any dimensions. -/
+theorem C14.insert_two_paths_aligned (P : Part) (index : Int) (parts : List Part)
+    (hP : ∀ p ∈ P, Valid p) (hQ : ∀ Q ∈ parts, ∀ p ∈ Q, Valid p) :
+    insert2 P index parts = OdlModel.Partition.insert P index parts ∧
+    append2 P parts = OdlModel.Partition.append P parts :=
+  ⟨insert2_eq P index parts hP hQ, insert2_eq P P.length parts hP hQ⟩
+
+/-- `RectPartition.squeeze(axis)` selects the set axes by `self.set[new_indcs]` (domain.py) and lets
+`self.grid.squeeze(axis)` (grid.py) recompute its own selection; for valid axes both select the same
+axes and the re-assembled partition is the aligned one (`C14.squeeze_cells` for `axis=None`), for
+every `axis` argument. -/
+theorem C14.squeeze_two_paths_aligned (P : Part) (axis : Option (List Int))
+    (hP : ∀ p ∈ P, Valid p) : squeeze2 P axis = squeeze P axis :=
+  squeeze2_eq P axis hP
+
+/-! ### (7) sensitivity: OLD model variants of defects that were repaired in /repo
+(these three are about code that no longer exists; they document that the statements above are
+sensitive to exactly these defects) -/
+
+/-- Sensitivity (defect C14-F2, repaired in /repo `56dfd19`): with the OLD `cell_sizes_vecs`
+(`[0.0]` on a single-node axis) a valid one-node partition of `[0, 1]` has cell sizes that do
+not sum to the extent. -/
+theorem C14.cell_sizes_old_sum_fails_len1 :
+    ∃ P : Part1, Valid P ∧ P.n = 1 ∧ sumTo P.cellSizeOld P.n ≠ P.hi - P.lo :=
+  OdlModel.Partition.cell_sizes_old_sum_fails_len1
+
+
+/-- Sensitivity (defect C14-F1, repaired in /repo `e9629b2`): with the OLD normalisation of the 1-d
 flat form `nodes_on_bdry=(l, r)`, `l ≠ r`, the completion loop used `(l, l)` while the grid was
 built with `(l, r)`; the completed upper limit then differs from the consistent one by half a
 cell for every `n` and every side `d ≠ 0`. -/
 theorem C14.uniform_flat_flags_old_fails (l r : Bool) (hlr : l ≠ r) (lo d : Rat) (n : Int) (hd : d ≠ 0) :
-    (Flags.flat l r).loopFlagsOld 1 = some [(l, l)] ∧
-    (Flags.flat l r).gridFlags 1 = some [(l, r)] ∧
+    (Flags.seq [.b l, .b r]).loopFlagsOld 1 = some [(l, l)] ∧
+    (Flags.seq [.b l, .b r]).gridFlags 1 = some [(l, r)] ∧
     ∀ t eps, completeAxis t eps (some lo) none (some n) (some d) l l ≠
              completeAxis t eps (some lo) none (some n) (some d) l r := by
   refine ⟨rfl, rfl, ?_⟩
@@ -344,3 +481,25 @@ theorem C14.uniform_flat_flags_old_fails (l r : Bool) (hlr : l ≠ r) (lo d : Ra
   have : halfCount l l * d = halfCount l r * d := by linarith
   have h2 : halfCount l l = halfCount l r := mul_right_cancel₀ hd this
   cases l <;> cases r <;> simp [halfCount] at h2 hlr
+
+/-- Sensitivity (defect C14-F3, repaired in /repo `2deca8c`): with the OLD boundary test
+(`np.isclose` on the coordinates, NumPy tolerances) the all-dyadic `uniform_partition(64, 64 + 1/1024, 4)`
+is reported with nodes on both boundaries although they are half a cell inside; the repaired test
+reports `(False, False)`. -/
+theorem C14.nodes_on_bdry_old_detection_fails :
+    (uniformAxis 64 (64 + 1 / 1024) 4 false false).nodesOnBdryOld Tol.numpy = (true, true) ∧
+    (uniformAxis 64 (64 + 1 / 1024) 4 false false).nodesOnBdry (1 / 100000) = (false, false) :=
+  nodesOnBdryOld_fails
+
+/-- Sensitivity (defect C14-F4, repaired in /repo `0a773a6`): the OLD integer handling wrapped a
+still-negative index a second time — `p[-6]` on 4 cells returned cell 2. -/
+theorem C14.getitem_int_old_double_wrap (P : Part1) (hv : Valid P) (hn : P.n = 4) :
+    P.getIntOld (-6) = some (subPart P 2 3 1) ∧ P.getInt (-6) = none := by
+  constructor
+  · have h := (getSlice_general P hv (some (-2)) (some (-1)) none 1 (le_refl _) rfl)
+    simp only [clampBound, hn] at h
+    unfold Part1.getIntOld
+    simp only [hn]
+    norm_num at h ⊢
+    exact h
+  · exact getInt_out_of_range P (-6) (by omega)
